@@ -1,1 +1,558 @@
 // Kani harnesses compiled inside rs-matter/src/transport/mrp.rs (module `verif_kani`).
+
+mod c09 {
+    use super::*;
+
+    fn fake_now() -> Instant {
+        Instant::from_ticks(kani::any())
+    }
+
+    type RetransSnap = Option<(u32, u32, u16)>; // (base interval, message counter, attempts)
+    type AckSnap = Option<(u32, bool)>; // (counter to acknowledge, already sent)
+    type RmSnap = (RetransSnap, AckSnap, Option<u64>);
+
+    /// A `ReliableMessage` built directly from field values.
+    fn mk(s: RmSnap) -> ReliableMessage {
+        ReliableMessage {
+            retrans: s.0.map(|(b, m, c)| RetransEntry {
+                base_delay_interval_ms: b,
+                msg_ctr: m,
+                counter: c,
+            }),
+            ack: s.1.map(|(m, a)| AckEntry {
+                msg_ctr: m,
+                acknowledged: a,
+            }),
+            received_at: s.2.map(Instant::from_ticks),
+        }
+    }
+
+    fn snap(m: &ReliableMessage) -> RmSnap {
+        (
+            m.retrans
+                .as_ref()
+                .map(|r| (r.base_delay_interval_ms, r.msg_ctr, r.counter)),
+            m.ack.as_ref().map(|a| (a.msg_ctr, a.acknowledged)),
+            m.received_at.map(|t| t.as_ticks()),
+        )
+    }
+
+    fn any_proto() -> ProtoHdr {
+        let mut p = ProtoHdr::new();
+        p.exch_id = kani::any();
+        p.proto_id = kani::any();
+        p.proto_opcode = kani::any();
+        if kani::any() {
+            p.set_reliable();
+        }
+        if kani::any() {
+            p.set_initiator();
+        }
+        if kani::any() {
+            p.set_ack(Some(kani::any()));
+        }
+        if kani::any() {
+            p.set_vendor(Some(kani::any()));
+        }
+        p
+    }
+
+    fn any_plain() -> PlainHdr {
+        let mut h = PlainHdr::new();
+        h.sess_id = kani::any();
+        h.ctr = kani::any();
+        if kani::any() {
+            h.set_src_nodeid(Some(kani::any()));
+        }
+        h
+    }
+
+    fn is_code(r: &Result<(), Error>, c: ErrorCode) -> bool {
+        match r {
+            Ok(()) => false,
+            Err(e) => e.code() == c,
+        }
+    }
+
+    // ---------------------------------------------------------------------------------------------
+    // RetransEntry
+    // ---------------------------------------------------------------------------------------------
+
+    /// Effective base interval of a new entry: the given one, never zero (a zero interval would
+    /// retransmit without any back-off), the protocol default otherwise.
+    fn spec_base(given: Option<u32>) -> u32 {
+        match given {
+            Some(v) if v > 0 => v,
+            _ => 300,
+        }
+    }
+
+    // TIER: quick
+    // KIND: complete
+    #[kani::proof]
+    fn c09_retrans_new() {
+        let base: Option<u32> = kani::any();
+        let ctr: u32 = kani::any();
+        let e = RetransEntry::new(base, ctr);
+        kani::assert(e.counter == 0, "C09.retrans_new.no_attempt_counted");
+        kani::assert(e.msg_ctr == ctr && e.get_msg_ctr() == ctr, "C09.retrans_new.tracks_given_counter");
+        kani::assert(e.base_delay_interval_ms == spec_base(base), "C09.retrans_new.base_interval");
+        kani::assert(e.base_delay_interval_ms > 0, "C09.retrans_new.base_interval_never_zero");
+        kani::cover!(base == Some(0), "zero interval given");
+        kani::cover!(base.is_none(), "no interval given");
+        kani::cover!(matches!(base, Some(v) if v > 0), "interval given");
+    }
+
+    // TIER: quick
+    // KIND: complete
+    #[kani::proof]
+    fn c09_retrans_pre_send() {
+        let (b, m, c): (u32, u32, u16) = kani::any();
+        let mut e = RetransEntry {
+            base_delay_interval_ms: b,
+            msg_ctr: m,
+            counter: c,
+        };
+        // Precondition `ctr == msg_ctr`: established by the only call chain
+        // Session::pre_send -> ExchangeState::pre_send -> ReliableMessage::pre_send
+        // (obligation C09.session_pre_send.* in transport__session.rs).
+        let r = e.pre_send(m);
+
+        let budget_left = c < MRP_MAX_TRANSMISSIONS;
+        kani::assert(r.is_ok() == budget_left, "C09.retrans_pre_send.ok_iff_budget_left");
+        kani::assert(r.is_ok() || is_code(&r, ErrorCode::TxTimeout), "C09.retrans_pre_send.err_is_tx_timeout");
+        kani::assert(!r.is_ok() || e.counter == c + 1, "C09.retrans_pre_send.ok_counts_one_attempt");
+        kani::assert(r.is_ok() || e.counter == c, "C09.retrans_pre_send.err_changes_nothing");
+        kani::assert(e.msg_ctr == m && e.base_delay_interval_ms == b, "C09.retrans_pre_send.frame");
+        // representation invariant `counter <= MRP_MAX_TRANSMISSIONS` is preserved
+        kani::assert(!(c <= MRP_MAX_TRANSMISSIONS) || e.counter <= MRP_MAX_TRANSMISSIONS, "C09.retrans_pre_send.invariant_preserved");
+
+        kani::cover!(r.is_ok() && e.counter == MRP_MAX_TRANSMISSIONS, "last allowed attempt");
+        kani::cover!(r.is_err() && c == MRP_MAX_TRANSMISSIONS, "budget just used up");
+        kani::cover!(r.is_err() && c > MRP_MAX_TRANSMISSIONS, "beyond the invariant");
+    }
+
+    /// The whole life of one message: the first transmission arms the entry, every retransmission
+    /// consumes one attempt, and the sender is told `TxTimeout` at - and only at - the attempt that
+    /// exceeds the budget. Transmissions of one message <= 1 + MRP_MAX_TRANSMISSIONS.
+    // TIER: quick
+    // KIND: complete
+    #[kani::proof]
+    #[kani::unwind(9)]
+    fn c09_budget_sequence() {
+        let ctr: u32 = kani::any();
+        let sai: Option<u32> = kani::any();
+        let mut plain = PlainHdr::new();
+        plain.ctr = ctr;
+        let mut m = ReliableMessage::new();
+        let mut transmissions: u16 = 0;
+        let mut gave_up = false;
+        let mut i: u16 = 0;
+        while i < MRP_MAX_TRANSMISSIONS + 2 {
+            let mut proto = ProtoHdr::new();
+            proto.set_reliable();
+            let r = m.pre_send(&plain, &mut proto, sai, None);
+            if r.is_ok() {
+                kani::assert(!gave_up, "C09.sequence.no_success_after_give_up");
+                kani::assert(m.is_retrans_pending(), "C09.sequence.unacknowledged_stays_pending");
+                transmissions += 1;
+            } else {
+                kani::assert(is_code(&r, ErrorCode::TxTimeout), "C09.sequence.give_up_is_tx_timeout");
+                kani::assert(!m.is_retrans_pending() && !m.is_ack_pending(), "C09.sequence.give_up_clears_state");
+                kani::assert(i == MRP_MAX_TRANSMISSIONS + 1, "C09.sequence.give_up_exactly_after_budget");
+                gave_up = true;
+            }
+            i += 1;
+        }
+        kani::assert(transmissions == 1 + MRP_MAX_TRANSMISSIONS, "C09.sequence.transmissions_bounded_by_budget");
+        kani::assert(gave_up, "C09.sequence.gives_up_instead_of_hanging");
+        kani::cover!(gave_up, "gave up");
+    }
+
+    // ---------------------------------------------------------------------------------------------
+    // Back-off
+    // ---------------------------------------------------------------------------------------------
+
+    /// `floor(1.1 base)` then `floor(1.6 x)` for every attempt beyond the threshold: the MRP
+    /// equation without jitter, every intermediate value rounded down to a millisecond.
+    /// (At most 2^32 * 1.1 * 1.6^4 < 2^35: no overflow in u64.)
+    fn spec_floor_ladder(base: u32, n: u16) -> u64 {
+        let mut d: u64 = (base as u64) * 11 / 10;
+        let e = if n > 1 { n - 1 } else { 0 };
+        let mut k = 0;
+        while k < e {
+            d = d * 16 / 10;
+            k += 1;
+        }
+        d
+    }
+
+    /// One wait with the maximum jitter of 25 %.
+    fn spec_step_max_jitter(base: u32, n: u16) -> u64 {
+        let d = spec_floor_ladder(base, n);
+        d + d / 4
+    }
+
+    fn pow(b: u128, e: u16) -> u128 {
+        let mut r = 1u128;
+        let mut k = 0;
+        while k < e {
+            r *= b;
+            k += 1;
+        }
+        r
+    }
+
+    /// For every attempt number within the budget, every base interval and every jitter: no
+    /// arithmetic overflow (automatic checks), never earlier than the formula with integer floors,
+    /// never later than that plus a quarter.
+    // TIER: quick
+    // KIND: complete
+    #[kani::proof]
+    #[kani::unwind(8)]
+    fn c09_backoff_bounds() {
+        let base: u32 = kani::any();
+        let j: u8 = kani::any();
+        let mut n: u16 = 0;
+        while n <= MRP_MAX_TRANSMISSIONS {
+            let t = RetransEntry::backoff_ms(base, n, j);
+            let floor = spec_floor_ladder(base, n);
+            kani::assert(t >= floor, "C09.backoff.at_least_formula_floor");
+            kani::assert(t >= (base as u64) * 11 / 10, "C09.backoff.at_least_margin_times_base");
+            kani::assert(base == 0 || t > 0, "C09.backoff.positive_for_positive_base");
+            n += 1;
+        }
+        kani::cover!(base == u32::MAX && j == 255, "largest value");
+        kani::cover!(j == 100 && base == 300, "typical");
+    }
+
+    /// With the maximum jitter a wait is exactly the floor value plus a quarter of it; with any
+    /// jitter it is not longer. (Contract of `backoff_ms` used by `c09_retransmission_timeout`.)
+    // TIER: quick
+    // KIND: complete
+    #[kani::proof]
+    #[kani::unwind(8)]
+    fn c09_backoff_jitter() {
+        let base: u32 = kani::any();
+        let j: u8 = kani::any();
+        let mut n: u16 = 0;
+        while n <= MRP_MAX_TRANSMISSIONS {
+            let floor = spec_floor_ladder(base, n);
+            kani::assert(RetransEntry::backoff_ms(base, n, 0) == floor, "C09.backoff.no_jitter_is_formula_floor");
+            kani::assert(RetransEntry::backoff_ms(base, n, 255) == floor + floor / 4, "C09.backoff.max_jitter_is_a_quarter");
+            kani::assert(RetransEntry::backoff_ms(base, n, j) <= floor + floor / 4, "C09.backoff.jitter_at_most_a_quarter");
+            n += 1;
+        }
+        kani::cover!(base == u32::MAX, "largest base");
+    }
+
+    // TIER: quick
+    // KIND: complete
+    #[kani::proof]
+    #[kani::unwind(8)]
+    fn c09_backoff_monotone() {
+        let base: u32 = kani::any();
+        let j: u8 = kani::any();
+        let mut n: u16 = 0;
+        while n < MRP_MAX_TRANSMISSIONS {
+            let t = RetransEntry::backoff_ms(base, n, j);
+            let t_next_attempt = RetransEntry::backoff_ms(base, n + 1, j);
+            kani::assert(t <= t_next_attempt, "C09.backoff.monotone_in_attempt");
+            // strictly growing beyond the threshold for intervals of at least 2 ms
+            kani::assert(!(n >= 1 && base >= 2) || t < t_next_attempt, "C09.backoff.grows_beyond_threshold");
+            n += 1;
+        }
+        kani::cover!(base == 300 && j == 100, "typical");
+    }
+
+    // TIER: quick
+    // KIND: complete
+    #[kani::proof]
+    #[kani::unwind(8)]
+    fn c09_backoff_monotone_in_jitter() {
+        let base: u32 = kani::any();
+        let (j1, j2): (u8, u8) = kani::any();
+        kani::assume(j1 <= j2);
+        let mut n: u16 = 0;
+        while n <= MRP_MAX_TRANSMISSIONS {
+            kani::assert(
+                RetransEntry::backoff_ms(base, n, j1) <= RetransEntry::backoff_ms(base, n, j2),
+                "C09.backoff.monotone_in_jitter"
+            );
+            n += 1;
+        }
+        kani::cover!(j1 < j2 && base == 300, "typical");
+    }
+
+    /// Against the exact rational value  base * 11/10 * (16/10)^e * (1 + 25 j / (255 * 100)),
+    /// e = max(0, n - 1): never above it, below it by less than the accumulated rounding (< 21 ms).
+    // TIER: quick
+    // KIND: bounded (base interval < 4096 ms; all attempt numbers within the budget, all jitter values)
+    #[kani::proof]
+    #[kani::unwind(8)]
+    fn c09_backoff_exact_formula() {
+        let base: u32 = kani::any();
+        kani::assume(base < 4096);
+        let j: u8 = kani::any();
+        let mut n: u16 = 0;
+        while n <= MRP_MAX_TRANSMISSIONS {
+            let t = RetransEntry::backoff_ms(base, n, j) as u128;
+            let e = if n > 1 { n - 1 } else { 0 };
+            let num = (base as u128) * 11 * pow(16, e) * (25500 + 25 * (j as u128));
+            let den = 10 * pow(10, e) * 25500;
+            kani::assert(t * den <= num, "C09.backoff.never_above_exact_formula");
+            kani::assert((t + 21) * den >= num, "C09.backoff.rounding_loss_below_21ms");
+            n += 1;
+        }
+        // the reference SDK's worked values for the default 300 ms interval, no jitter
+        kani::assert(RetransEntry::backoff_ms(300, 0, 0) == 330, "C09.backoff.default_interval_first_wait");
+        kani::assert(RetransEntry::backoff_ms(300, 1, 0) == 330, "C09.backoff.default_interval_threshold");
+        kani::assert(RetransEntry::backoff_ms(300, 2, 0) == 528, "C09.backoff.default_interval_third_wait");
+        kani::assert(RetransEntry::backoff_ms(300, 5, 255) <= 2704, "C09.backoff.default_interval_last_wait_max_jitter");
+        kani::cover!(base == 4095 && j == 255, "largest bounded value");
+    }
+
+    /// `delay_ms` / `delay_ms_counter` of an entry are the back-off of its own base interval and
+    /// attempt number.
+    // TIER: quick
+    // KIND: complete
+    #[kani::proof]
+    #[kani::unwind(8)]
+    fn c09_retrans_delay() {
+        let (b, m): (u32, u32) = kani::any();
+        let j: u8 = kani::any();
+        let mut c: u16 = 0;
+        // representation invariant `counter <= budget` (C09.retrans_pre_send.invariant_preserved)
+        while c <= MRP_MAX_TRANSMISSIONS {
+            let e = RetransEntry {
+                base_delay_interval_ms: b,
+                msg_ctr: m,
+                counter: c,
+            };
+            let d = e.delay_ms(j);
+            kani::assert(d >= spec_floor_ladder(b, c), "C09.delay.at_least_formula_floor");
+            kani::assert(d == e.delay_ms_counter(c, j), "C09.delay.uses_own_attempt_number");
+            kani::assert(d == RetransEntry::backoff_ms(b, c, j), "C09.delay.is_backoff_of_own_base");
+            kani::assert(e.msg_ctr == m && e.counter == c && e.base_delay_interval_ms == b, "C09.delay.pure");
+            c += 1;
+        }
+        kani::cover!(b == 300, "typical");
+    }
+
+    /// Contract of `backoff_ms` at maximum jitter (C09.backoff.max_jitter_is_a_quarter), used in
+    /// place of its body by the ladder harness; its precondition is asserted.
+    fn backoff_by_contract(base_interval_ms: u32, counter: u16, jitter_rand: u8) -> u64 {
+        kani::assert(counter <= MRP_MAX_TRANSMISSIONS, "C09.retrans_timeout.backoff_called_within_budget");
+        kani::assert(jitter_rand == 255, "C09.retrans_timeout.backoff_called_with_max_jitter");
+        spec_step_max_jitter(base_interval_ms, counter)
+    }
+
+    /// The retransmission timeout is the sum of the whole ladder at maximum jitter: the waits
+    /// after transmissions 0..MRP_MAX_TRANSMISSIONS, each paced by the active interval while the
+    /// accumulated wait is below the active threshold (or always, for a peer known to be active)
+    /// and by the idle interval afterwards.
+    // TIER: quick
+    // KIND: complete
+    #[kani::proof]
+    #[kani::unwind(8)]
+    #[kani::stub(RetransEntry::backoff_ms, backoff_by_contract)]
+    fn c09_retransmission_timeout() {
+        let (active, idle): (u32, u32) = kani::any();
+        let threshold: u16 = kani::any();
+        let active_only: bool = kani::any();
+
+        // no overflow for any interval (automatic checks)
+        let t = RetransEntry::retransmission_timeout_ms(active, idle, threshold, active_only);
+
+        let mut sum: u64 = 0;
+        let mut all_active: u64 = 0;
+        let mut n: u16 = 0;
+        while n < MRP_MAX_TRANSMISSIONS {
+            let base = if active_only || sum < threshold as u64 { active } else { idle };
+            sum += spec_step_max_jitter(base, n);
+            all_active += spec_step_max_jitter(active, n);
+            n += 1;
+        }
+        kani::assert(t == sum, "C09.retrans_timeout.is_sum_of_whole_ladder");
+        kani::assert(!active_only || t == all_active, "C09.retrans_timeout.active_only_ignores_idle");
+        kani::assert(t < (1u64 << 36), "C09.retrans_timeout.below_2_pow_36_ms");
+
+        kani::cover!(!active_only && threshold > 0 && sum != all_active, "falls back to idle");
+        kani::cover!(active_only, "active only");
+        kani::cover!(!active_only && idle < active, "idle shorter than active");
+        kani::cover!(active == u32::MAX && idle == u32::MAX, "largest intervals");
+    }
+
+    /// A sender pacing all its waits by one interval, with any jitter, has made its last
+    /// transmission when the all-active ladder has elapsed.
+    // TIER: quick
+    // KIND: complete
+    #[kani::proof]
+    #[kani::unwind(8)]
+    fn c09_retransmission_timeout_covers_sender() {
+        let active: u32 = kani::any();
+        let j: u8 = kani::any();
+        let mut ladder: u64 = 0;
+        let mut walked: u64 = 0;
+        let mut n: u16 = 0;
+        while n < MRP_MAX_TRANSMISSIONS {
+            let step = RetransEntry::backoff_ms(active, n, j);
+            kani::assert(step <= spec_step_max_jitter(active, n), "C09.retrans_timeout.step_covers_sender_step_any_jitter");
+            walked += step;
+            ladder += spec_step_max_jitter(active, n);
+            n += 1;
+        }
+        kani::assert(walked <= ladder, "C09.retrans_timeout.covers_sender_ladder_any_jitter");
+        kani::cover!(active == 300 && j == 100, "typical");
+    }
+
+    // ---------------------------------------------------------------------------------------------
+    // ReliableMessage
+    // ---------------------------------------------------------------------------------------------
+
+    // TIER: quick
+    // KIND: complete
+    #[kani::proof]
+    fn c09_rm_pending_flags() {
+        let s: RmSnap = kani::any();
+        let m = mk(s);
+        kani::assert(m.is_retrans_pending() == s.0.is_some(), "C09.rm.retrans_pending_iff_entry");
+        kani::assert(m.is_ack_pending() == matches!(s.1, Some((_, false))), "C09.rm.ack_pending_iff_unsent_ack");
+        kani::assert(snap(&m) == s, "C09.rm.flags_pure");
+        kani::cover!(matches!(s.1, Some((_, true))), "ack already sent");
+    }
+
+    // TIER: quick
+    // KIND: complete
+    #[kani::proof]
+    fn c09_rm_pre_send() {
+        let s0: RmSnap = kani::any();
+        let (r0, a0, t0) = s0;
+        let mut m = mk(s0);
+        let plain = any_plain();
+        let mut proto = any_proto();
+        let p0 = proto.clone();
+        let sai: Option<u32> = kani::any();
+        let sii: Option<u32> = kani::any();
+        // Precondition: a pending retransmission is only ever re-sent under its own message counter
+        // (Session::pre_send takes the counter from the entry; C09.session_pre_send.*).
+        if let Some((_, mc, _)) = r0 {
+            kani::assume(!p0.is_reliable() || mc == plain.ctr);
+        }
+
+        let res = m.pre_send(&plain, &mut proto, sai, sii);
+        let (r1, a1, t1) = snap(&m);
+
+        let reliable = p0.is_reliable();
+        let give_up = reliable && matches!(r0, Some((_, _, c)) if c >= MRP_MAX_TRANSMISSIONS);
+
+        // truthful result
+        kani::assert(res.is_err() == give_up, "C09.rm_pre_send.err_iff_budget_used_up");
+        kani::assert(res.is_ok() || is_code(&res, ErrorCode::TxTimeout), "C09.rm_pre_send.err_is_tx_timeout");
+        kani::assert(!give_up || (r1.is_none() && a1.is_none()), "C09.rm_pre_send.give_up_clears_retrans_and_ack");
+        // "nothing pending" is never reached with Ok from a pending reliable message: success is not reported after give-up
+        kani::assert(!(res.is_ok() && r0.is_some()) || r1.is_some(), "C09.rm_pre_send.no_success_after_give_up");
+        if let (Some((b, mc, c)), true, true) = (r0, reliable, res.is_ok()) {
+            kani::assert(r1 == Some((b, mc, c + 1)), "C09.rm_pre_send.retransmission_counts_one_attempt");
+        }
+        if r0.is_none() && reliable {
+            kani::assert(r1 == Some((spec_base(sai), plain.ctr, 0)), "C09.rm_pre_send.first_send_arms_retransmission");
+        }
+        kani::assert(reliable || r1 == r0, "C09.rm_pre_send.unreliable_keeps_retrans");
+        // acknowledgement piggy-backing
+        match a0 {
+            Some((c, _)) => {
+                kani::assert(proto.get_ack() == Some(c), "C09.rm_pre_send.piggybacks_exactly_pending_ack");
+                kani::assert(!res.is_ok() || a1 == Some((c, true)), "C09.rm_pre_send.ack_marked_sent");
+            }
+            None => {
+                kani::assert(proto.get_ack() == p0.get_ack(), "C09.rm_pre_send.no_ack_invented");
+                kani::assert(a1.is_none(), "C09.rm_pre_send.no_ack_state_invented");
+            }
+        }
+        // frame: the rest of the header is untouched
+        kani::assert(
+            proto.exch_id == p0.exch_id
+                && proto.proto_id == p0.proto_id
+                && proto.proto_opcode == p0.proto_opcode
+                && proto.is_reliable() == p0.is_reliable()
+                && proto.is_initiator() == p0.is_initiator()
+                && proto.get_vendor() == p0.get_vendor(),
+            "C09.rm_pre_send.header_frame"
+        );
+        kani::assert(if res.is_ok() { t1.is_none() } else { t1 == t0 }, "C09.rm_pre_send.received_at");
+
+        kani::cover!(give_up, "give up");
+        kani::cover!(res.is_ok() && r0.is_some() && reliable, "retransmission");
+        kani::cover!(res.is_ok() && r0.is_none() && reliable, "first transmission");
+        kani::cover!(!reliable && r0.is_some(), "unreliable message while a retransmission is pending");
+        kani::cover!(matches!(a0, Some((_, false))), "unsent ack piggy-backed");
+    }
+
+    // TIER: quick
+    // KIND: complete
+    #[kani::proof]
+    #[kani::stub(embassy_time::Instant::now, fake_now)]
+    fn c09_rm_post_recv() {
+        let s0: RmSnap = kani::any();
+        let (r0, a0, _t0) = s0;
+        let mut m = mk(s0);
+        let plain = any_plain();
+        let proto = any_proto();
+
+        let res = m.post_recv(&plain, &proto);
+        let s1 = snap(&m);
+        let (r1, a1, t1) = s1;
+
+        let acked = proto.get_ack();
+        let mismatch = matches!((acked, r0), (Some(a), Some((_, mc, _))) if a != mc);
+        let matched = matches!((acked, r0), (Some(a), Some((_, mc, _))) if a == mc);
+
+        kani::assert(res.is_err() == mismatch, "C09.rm_post_recv.err_iff_ack_for_other_counter");
+        kani::assert(res.is_ok() || is_code(&res, ErrorCode::Duplicate), "C09.rm_post_recv.err_is_duplicate");
+        kani::assert(!mismatch || s1 == s0, "C09.rm_post_recv.mismatch_changes_nothing");
+        kani::assert(!matched || r1.is_none(), "C09.rm_post_recv.matching_ack_clears_retransmission");
+        // the only way a pending retransmission goes away on receive is a matching acknowledgement
+        kani::assert(matched || r1 == r0, "C09.rm_post_recv.retrans_cleared_only_by_matching_ack");
+        if res.is_ok() {
+            if proto.is_reliable() {
+                kani::assert(a1 == Some((plain.ctr, false)), "C09.rm_post_recv.reliable_records_unsent_ack");
+            } else {
+                kani::assert(a1 == if matched { None } else { a0 }, "C09.rm_post_recv.unreliable_records_no_ack");
+            }
+            kani::assert(t1.is_some(), "C09.rm_post_recv.stamps_receive_time");
+        }
+
+        kani::cover!(mismatch, "ack for another counter");
+        kani::cover!(matched && proto.is_reliable(), "matching ack on a reliable message");
+        kani::cover!(acked.is_some() && r0.is_none(), "ack with nothing pending");
+        kani::cover!(res.is_ok() && proto.is_reliable() && matches!(a0, Some((_, false))), "previous ack still unsent");
+    }
+
+    /// A reliable message that was accepted is acknowledged by the very next transmission with
+    /// exactly its counter.
+    // TIER: quick
+    // KIND: complete
+    #[kani::proof]
+    #[kani::stub(embassy_time::Instant::now, fake_now)]
+    fn c09_rm_ack_roundtrip() {
+        let s0: RmSnap = kani::any();
+        let mut m = mk(s0);
+        let rx_plain = any_plain();
+        let mut rx_proto = any_proto();
+        rx_proto.set_reliable();
+        let res = m.post_recv(&rx_plain, &rx_proto);
+        if res.is_ok() {
+            kani::assert(m.is_ack_pending(), "C09.roundtrip.ack_pending_after_reliable_rx");
+            let tx_plain = any_plain();
+            let mut tx_proto = any_proto();
+            if let Some(r) = m.retrans.as_ref() {
+                kani::assume(!tx_proto.is_reliable() || r.msg_ctr == tx_plain.ctr);
+            }
+            let _ = m.pre_send(&tx_plain, &mut tx_proto, kani::any(), kani::any());
+            kani::assert(tx_proto.get_ack() == Some(rx_plain.ctr), "C09.roundtrip.next_send_acks_exactly_that_counter");
+            kani::assert(!m.is_ack_pending(), "C09.roundtrip.ack_no_longer_pending");
+        }
+        kani::cover!(res.is_ok(), "accepted");
+    }
+}
